@@ -34,7 +34,7 @@ TARGETS = [
     "sigma.processing.transformations.placeholder:QueryExpressionPlaceholderTransformation.apply_string_value",
 ]
 BOUNDS = {
-    "values": "every string of length <= 4 over {%, a, b, \\, *}; and every concatenation of 1..3 segments out of 11 (placeholders with list / scalar / numeric / mixed-type / undefined variables, literals, wildcard, escaped percent, backslash) i.e. 0..3 placeholders per value; plain or with |contains",
+    "values": "every string of length <= 4 (quick) / <= 5 (thorough) over {%, a, b, \\, *}; and every concatenation of 1..3 segments out of 11 (placeholders with list / scalar / numeric / mixed-type / undefined variables, literals, wildcard, escaped percent, backslash) i.e. 0..3 placeholders per value; plain or with |contains",
     "positions": "string value of a field, keyword value, regular expression",
     "pipelines": "none; value list (variables: list with a wildcard value, scalar, numbers, missing, wrong type); wildcard; value list include [a] then wildcard; wildcard exclude [a] then value list; query expression",
     "outside": "longer values; more than 2 placeholders per value; other placeholder names than those expressible over {a, b, \\, *}",
@@ -258,15 +258,15 @@ def kf_regex_unresolved(text, pos, pipe) -> bool:
     return False
 
 
-def c17_expand(n: int, k0: int, k1: int, k2: int, k3: int, contains: bool) -> bool:
+def c17_expand(n: int, k0: int, k1: int, k2: int, k3: int, k4: int, contains: bool) -> bool:
     """
     pre: 0 <= n <= P("LEN", 4)
-    pre: 0 <= k0 < 5 and 0 <= k1 < 5 and 0 <= k2 < 5 and 0 <= k3 < 5
+    pre: 0 <= k0 < 5 and 0 <= k1 < 5 and 0 <= k2 < 5 and 0 <= k3 < 5 and 0 <= k4 < 5
     post: _
     """
-    ks = [k0, k1, k2, k3]
+    ks = [k0, k1, k2, k3, k4]
     text = ""
-    for i in range(4):
+    for i in range(5):
         if i < n:
             for j in range(5):
                 if ks[i] == j:
@@ -325,7 +325,11 @@ def c17_wildcard_in_regex_strict(text: str) -> bool:
 
 
 COMBOS = [(pos, pipe) for pos in range(3) for pipe in range(len(PIPES)) if not (pos != 0 and pipe == 5)]
-OBLIGATIONS = [Ob("c17_expand", {"POS": pos, "PIPE": pipe, "LEN": 4}, 600) for pos, pipe in COMBOS] + [Ob("c17_segments", {"POS": pos, "PIPE": pipe}, 600) for pos, pipe in COMBOS]
+OBLIGATIONS = (
+    [Ob("c17_expand", {"POS": pos, "PIPE": pipe, "LEN": 4}, 600) for pos, pipe in COMBOS]
+    + [Ob("c17_segments", {"POS": pos, "PIPE": pipe}, 600) for pos, pipe in COMBOS]
+    + [Ob("c17_expand", {"POS": pos, "PIPE": pipe, "LEN": 5}, 3000, tier="thorough") for pos, pipe in COMBOS]
+)
 
 SELFCHECKS = [
     ("c17_text", {}, ("%a%", False, 0, 1), True),
